@@ -220,6 +220,9 @@ class BaseSection(base.Sectionable):
         new_section = term.get_section_by_path(
             path) if path is not None else term.sections[0]
 
+        # Make sure the referenced Section can be merged before anything is changed.
+        self.merge_check(new_section, strict=False)
+
         if self._include is not None:
             self.clean()
         self._include = new_value
@@ -261,6 +264,10 @@ class BaseSection(base.Sectionable):
 
         # raises exception if path cannot be found
         new_section = self.get_section_by_path(new_value)
+
+        # Make sure the referenced Section can be merged before anything is changed.
+        self.merge_check(new_section, strict=False)
+
         if self._link is not None:
             self.clean()
         self._link = new_value
